@@ -623,3 +623,47 @@ def negcycle_under_recursion(rng):
     for q in qs:
         prog.append(("query", q))
     return prog
+
+
+def negcycle_nested_positive(rng):
+    """A negated goal whose own definition lies on a positive cycle that calls back the goal above the negation, while
+    that goal is itself the root of an open positive cycle and has another proof:
+        r :- x. x :- r. r :- a. r :- \\+p.   p :- q. q :- p. p :- b. q :- r.
+    (propositional, or the same over a two-element domain linked by e/2)."""
+    prog = [("ad", [("p1", A("fa"))], []), ("ad", [("p2", A("fb"))], [])]
+    if rng.random() < 0.5:
+        r_cl = [("rule", A("r"), [P(A("x"))]), ("rule", A("r"), [P(A("fa"))]), ("rule", A("r"), [N(A("p"))])]
+        x_cl = [("rule", A("x"), [P(A("r"))])]
+        p_cl = [("rule", A("p"), [P(A("q"))])]
+        if rng.random() < 0.7:
+            p_cl.append(("rule", A("p"), [P(A("fb"))]))
+        q_cl = [("rule", A("q"), [P(A("p"))]), ("rule", A("q"), [P(A("r"))])]
+        if rng.random() < 0.3:
+            q_cl.reverse()
+        if rng.random() < 0.3:
+            rng.shuffle(r_cl)
+        if rng.random() < 0.3:
+            rng.shuffle(p_cl)
+        prog += r_cl + x_cl + p_cl + q_cl
+        prog.append(("query", A("r")))
+        if rng.random() < 0.3:
+            prog.append(("query", A("p")))
+    else:
+        prog = [("ad", [("p1", A("f", "1"))], []), ("ad", [("p2", A("f", "2"))], []),
+                ("fact", A("e", "1", "2")), ("fact", A("e", "2", "1"))]
+        mutual = rng.random() < 0.5
+        r_cl = [("rule", A("r", "X"), [P(A("e", "X", "Y")), P(A("s" if mutual else "r", "Y"))]),
+                ("rule", A("r", "X"), [P(A("f", "X"))]),
+                ("rule", A("r", "X"), [P(A("e", "X", "Y")), N(A("p", "X"))] if rng.random() < 0.3 else [P(A("e", "X", "_")), N(A("p", "X"))])]
+        r_cl[2] = ("rule", A("r", "X"), [P(A("e", "X", "Y")), N(A("p", "X"))])
+        if rng.random() < 0.3:
+            r_cl[0], r_cl[1] = r_cl[1], r_cl[0]
+        prog += r_cl
+        if mutual:
+            prog.append(("rule", A("s", "X"), [P(A("e", "X", "Y")), P(A("r", "Y"))]))
+            prog += [("rule", A("p", "X"), [P(A("q", "X"))]), ("rule", A("q", "X"), [P(A("p", "X"))]),
+                     ("rule", A("q", "X"), [P(A("r", "X"))])]
+        else:
+            prog += [("rule", A("p", "X"), [P(A("e", "X", "Y")), P(A("p", "Y"))]), ("rule", A("p", "X"), [P(A("r", "X"))])]
+        prog.append(("query", A("r", rng.choice(["1", "2", "X"]))))
+    return prog
